@@ -40,6 +40,8 @@ func gen(args []string) {
 	switch ch {
 	case "LEX":
 		genLex(w, tier, r)
+	case "POS":
+		genPos(w, tier, r)
 	default:
 		fmt.Fprintln(os.Stderr, "unknown channel", ch)
 		os.Exit(2)
